@@ -20,6 +20,7 @@ import (
 )
 
 type openRun struct {
+	tsShift int64 // shift pair, mode "inputs": forged payloads and ledger timestamps are those of the run at the base epoch
 	c      *Cluster
 	rng    *mrand.Rand
 	n      *Node
@@ -195,7 +196,7 @@ func (o *openRun) step() *Line {
 			n.AdvanceLedger(acc[0])
 		} else {
 			o.tipSeq++
-			n.Height, n.TipHash, n.TipTs = nh, H(fmt.Sprintf("T:%d.%d", nh, o.tipSeq)), uint64(c.Clk.Now)-uint64(rng.Intn(500))
+			n.Height, n.TipHash, n.TipTs = nh, H(fmt.Sprintf("T:%d.%d", nh, o.tipSeq)), uint64(c.Clk.Now-o.tsShift)-uint64(rng.Intn(500))
 		}
 		if _, decided := o.nvals[n.Height+1]; decided {
 			// payloads for that height were already crafted against this list
@@ -266,7 +267,7 @@ func (o *openRun) step() *Line {
 		case 4:
 			p = &Payload{T: dbft.MessageType(0x77), Ht: h, V: v, From: uint16(rng.Intn(vals)), Body: &RReqBody{}}
 		default:
-			p = mkReq(h+1+uint32(rng.Intn(2)), 0, rng.Intn(vals), uint64(c.Clk.Now), 7, nil)
+			p = mkReq(h+1+uint32(rng.Intn(2)), 0, rng.Intn(vals), uint64(c.Clk.Now-o.tsShift), 7, nil)
 		}
 		return n.Receive(p)
 	}
@@ -370,9 +371,9 @@ func (o *openRun) craft() *Payload {
 			ts := d.VerifSnapshot().LastBlockTimestamp + uint64(1+rng.Intn(3))*n.Cfg.Inc
 			switch rng.Intn(6) { // nobody checks a proposal's timestamp but the application
 			case 0:
-				ts = uint64(c.Clk.Now) + uint64(1000+rng.Intn(5000))
+				ts = uint64(c.Clk.Now-o.tsShift) + uint64(1000+rng.Intn(5000))
 			case 1:
-				ts = uint64(c.Clk.Now) / n.Cfg.Inc * n.Cfg.Inc
+				ts = uint64(c.Clk.Now-o.tsShift) / n.Cfg.Inc * n.Cfg.Inc
 			}
 			q := mkReq(ph, pv, fromP, ts, 2000+o.nonce, txs)
 			if fromP == primary {
@@ -401,9 +402,9 @@ func (o *openRun) craft() *Payload {
 		}
 		return mkPreCommit(ph, pv, from, []byte(fmt.Sprintf("junk%d", rng.Intn(2))))
 	case 4: // change view
-		return mkCV(ph, pv, from, pv+1+byte(rng.Intn(10)/8), uint64(c.Clk.Now))
+		return mkCV(ph, pv, from, pv+1+byte(rng.Intn(10)/8), uint64(c.Clk.Now-o.tsShift))
 	case 5:
-		return mkRReq(ph, pv, from, uint64(c.Clk.Now))
+		return mkRReq(ph, pv, from, uint64(c.Clk.Now-o.tsShift))
 	default: // recovery message
 		rm := &RMsgBody{}
 		used := map[string]bool{}
@@ -455,10 +456,10 @@ func (o *openRun) craft() *Payload {
 				}
 			case 3:
 				if pv > 0 {
-					add(mkCV(ph, pv-1, i, pv+byte(rng.Intn(2)), uint64(c.Clk.Now)))
+					add(mkCV(ph, pv-1, i, pv+byte(rng.Intn(2)), uint64(c.Clk.Now-o.tsShift)))
 				}
 			default:
-				add(mkCV(ph, pv, i, pv+1, uint64(c.Clk.Now)))
+				add(mkCV(ph, pv, i, pv+1, uint64(c.Clk.Now-o.tsShift)))
 			}
 		}
 		return &Payload{T: dbft.RecoveryMessageType, Ht: ph, V: pv, From: uint16(from), Body: rm}
@@ -472,6 +473,7 @@ type Pair struct {
 	Run   int    `json:"run"`
 	I     int    `json:"i"`
 	Delta int64  `json:"delta"`
+	Mode  string `json:"mode"` // "world": everything absolute shifts with the clock; "inputs": identical inputs (payload and ledger timestamps), only the clock differs
 	A     *Line  `json:"a"`
 	B     *Line  `json:"b"`
 }
@@ -488,8 +490,14 @@ func runShift(out *TraceWriter, seed int64, run int, steps int) {
 	rand.Reader = srcB
 	b := newOpenRun(out, seed, run, base+delta, false, 500)
 	a.noDup, b.noDup = true, true
+	mode := "world"
+	if run%3 == 2 {
+		mode = "inputs"
+		b.tsShift = delta
+		b.n.TipTs = a.n.TipTs
+	}
 	out.Write(RunStart{Call: "RunStart", Run: run, Seed: seed, Driver: "shift", Nodes: []int{500}, Faulty: []int{},
-		Params: map[string]any{"delta": delta, "base": base, "n0": a.nvals[0], "myIndex": a.myIdx[0]}})
+		Params: map[string]any{"delta": delta, "base": base, "n0": a.nvals[0], "myIndex": a.myIdx[0], "mode": mode}})
 	i := 0
 	emit := func(la, lb *Line) bool {
 		if (la == nil) != (lb == nil) {
@@ -500,7 +508,7 @@ func runShift(out *TraceWriter, seed int64, run int, steps int) {
 		}
 		i++
 		la.I, lb.I = i, i
-		out.Write(Pair{Call: "Pair", Run: run, I: i, Delta: delta, A: la, B: lb})
+		out.Write(Pair{Call: "Pair", Run: run, I: i, Delta: delta, Mode: mode, A: la, B: lb})
 		// replay order of cached payloads is random as soon as one cache map holds two entries:
 		// the two runs may then legitimately differ, stop comparing
 		for _, o := range []*openRun{a, b} {
